@@ -382,21 +382,67 @@ class HMap:
 
 
 class HSeq:
-    """list of strings of symbolic length: (n, z3 Array Int -> String)."""
+    """list of symbolic length whose items are all of one kind: (n, z3 Array Int -> sort(kind))."""
 
-    def __init__(self, n, arr):
+    def __init__(self, n, arr, kind="str"):
         self.n = n
         self.arr = arr
+        self.kind = kind
 
     def copy(self):
-        return HSeq(self.n, self.arr)
+        return HSeq(self.n, self.arr, self.kind)
 
     @staticmethod
-    def from_list(items):
-        arr = z3.K(z3.IntSort(), z3.StringVal(""))
+    def from_list(items, kind=None):
+        if kind is None:
+            kind = _kind_of(items[0]) if items else "str"
+        arr = z3.K(z3.IntSort(), _default_term(kind))
         for i, x in enumerate(items):
-            arr = z3.Store(arr, z3.IntVal(i), _zstr_val(x))
-        return HSeq(z3.IntVal(len(items)), arr)
+            arr = z3.Store(arr, z3.IntVal(i), _term_of(kind, x))
+        return HSeq(z3.IntVal(len(items)), arr, kind)
+
+
+class HRecSeq:
+    """list of dicts that all have the same concrete key tuple: per key an array index -> value."""
+
+    def __init__(self, n, keys=None, arrs=None, kinds=None):
+        self.n = n
+        self.keys = keys          # tuple of concrete keys, None until the first append
+        self.arrs = dict(arrs or {})
+        self.kinds = dict(kinds or {})
+
+    def copy(self):
+        return HRecSeq(self.n, self.keys, self.arrs, self.kinds)
+
+
+def _kind_of(v):
+    if isinstance(v, bool):
+        return "bool"
+    if isinstance(v, (int, SInt, SBits)):
+        return "int"
+    if isinstance(v, str):
+        return "str"
+    if isinstance(v, float):
+        return "float"
+    if isinstance(v, SOpaque):
+        return v.kind
+    raise EngineUnsupported(f"sequence item {v!r}")
+
+
+def _default_term(kind):
+    return {"int": z3.IntVal(0), "str": z3.StringVal(""), "float": z3.Const("float_default", FloatSort), "bool": z3.BoolVal(False)}[kind]
+
+
+def _term_of(kind, v):
+    if kind == "int":
+        return int_term(v)
+    if kind == "str":
+        return _zstr_val(v)
+    if kind == "float" and isinstance(v, SOpaque) and v.kind == "float":
+        return v.t
+    if kind == "bool":
+        return bool_term(v) if not isinstance(v, bool) else z3.BoolVal(v)
+    raise EngineUnsupported(f"value {v!r} as sequence item of kind {kind}")
 
 
 def _zstr_val(v):
